@@ -2,7 +2,7 @@ import gfapy
 import re
 
 def unsafe_decode(string):
-  return gfapy.OrientedLine(string[:-1], string[-1])
+  return gfapy.OrientedLine(string[:-1], string[-1:])
 
 def decode(string):
   validate_encoded(string)
